@@ -145,9 +145,9 @@ func recrc(b []byte) {
 }
 
 type storeView struct {
-	openErr string
-	root    hash.Hash
-	present []int8 // per universe chunk: 1 readable with right bytes, 0 absent, -1 error, -2 wrong bytes
+	openErr  string
+	root     hash.Hash
+	present  []int8 // per universe chunk: 1 readable with right bytes, 0 absent, -1 error, -2 wrong bytes
 	count    uint32
 	mode     int
 	panicMsg string
